@@ -29,11 +29,10 @@ Theorem C13_manual_retry_gate s t :
 Proof. exact (manual_retry_gate s t). Qed.
 Print Assumptions C13_manual_retry_gate.
 
-(* One attempt of `run` of a live retry task, in every state of every guarded sequence, for every reply sequence:
+(* One attempt of `run` of a live retry task, in every state of EVERY operation sequence, for every reply sequence:
    the loop fuel is never exhausted (the while loop ends), it issues at most one registration and at most one
    add_appointment per locator of the retrier's set (no duplicates, nothing outside the set). *)
 Theorem C13_run_bounded ops t a :
-  ops_fresh f_init ops = true ->
   let s := frun f_init ops in
   In t (f_tasks s) ->
   fst (run_attempt s t a) = fst (run_attempt s t a) /\
@@ -43,13 +42,15 @@ Theorem C13_run_bounded ops t a :
 Proof. exact (run_bounded ops t a). Qed.
 Print Assumptions C13_run_bounded.
 
-(* DELIVERY: a live retry task of a known tower that now accepts delivers its whole set in ONE attempt (after a
-   subscription error: one renewal with an extending receipt first); the task ends, the tower is reachable, its
-   retrier stopped and empty and out of WTClient::retriers; delivered locators are no pending rows any more and keep a
-   record; no other pending row appears. *)
+(* DELIVERY: a live retry task of a known tower (not flagged) that now accepts delivers its whole set in ONE attempt
+   (after a subscription error: one renewal with an extending receipt first); the task ends, the tower is reachable,
+   its retrier stopped and empty and out of WTClient::retriers; no locator of the set is a pending row any more and
+   each one that was a pending row keeps a record (a locator that was NOT a pending row of the tower any more - the
+   tower was abandoned and registered again meanwhile - is dropped without a request: fix 8108569); no other pending
+   row appears. *)
 Theorem C13_delivers_attempt ops t a sl rest :
-  ops_fresh f_init ops = true -> let s := frun f_init ops in poisoned s = false ->
-  In t (f_tasks s) -> knownc (f_c s) t ->
+  let s := frun f_init ops in poisoned s = false ->
+  In t (f_tasks s) -> knownc (f_c s) t -> stat (f_c s) t <> Some Misbehaving ->
   at_adds a = accept_all sl ++ rest -> (length (retrier_pending s t) <= length sl)%nat ->
   (stat (f_c s) t = Some SubscriptionError ->
      exists slots start expiry, at_reg a = RReceipt slots start expiry true /\ reg_extends (f_c s) t slots expiry = true) ->
@@ -57,7 +58,7 @@ Theorem C13_delivers_attempt ops t a sl rest :
   snd (fstep s (FRetrierRun t [a])) = ORun OutDelivered /\
   stat (f_c s') t = Some Reachable /\ rstat s' t = Some RStopped /\ retrier_pending s' t = [] /\
   ~ In t (f_tasks s') /\ aget (c_retriers (f_c s')) t = None /\
-  (forall l, In l (retrier_pending s t) -> ~ Prow (c_db (f_c s')) t l /\ recorded (c_db (f_c s')) t l) /\
+  (forall l, In l (retrier_pending s t) -> ~ Prow (c_db (f_c s')) t l /\ (Prow (c_db (f_c s)) t l -> recorded (c_db (f_c s')) t l)) /\
   (forall k x, Prow (c_db (f_c s')) k x -> Prow (c_db (f_c s)) k x).
 Proof. exact (delivers_attempt ops t a sl rest). Qed.
 Print Assumptions C13_delivers_attempt.
@@ -65,12 +66,13 @@ Print Assumptions C13_delivers_attempt.
 (* THE BOUND: from an idle retrier (the tower was given up on) with a drained, living manager: 3 steps — the tick
    after the auto-retry delay has elapsed wakes it (manager_wakes), the next tick starts it (manager_starts), one
    attempt delivers: NO pending row of the tower is left, it is shown reachable, no retry task and no entry in
-   WTClient::retriers remain.  `starts_safe`: no stopped retrier holding data belongs to an abandoned tower
-   (otherwise Retrier::start panics: a genuine defect, see C14's known findings). *)
+   WTClient::retriers remain.  No side condition on the other retriers is left: Retrier::start cannot panic
+   (fixes 29264ec, 9d6311c), so the sweep always gets to the tower. *)
 Theorem C13_delivers_on_recovery ops t r0 a sl rest :
-  ops_fresh f_init ops = true -> let s := frun f_init ops in
-  poisoned s = false -> f_mgr_dead s = false -> f_chan s = [] -> starts_safe s ->
-  aget (f_mgr s) t = Some r0 -> r_status r0 = RIdle -> knownc (f_c s) t -> stat (f_c s) t <> Some SubscriptionError ->
+  let s := frun f_init ops in
+  poisoned s = false -> f_mgr_dead s = false -> f_chan s = [] ->
+  aget (f_mgr s) t = Some r0 -> r_status r0 = RIdle -> knownc (f_c s) t ->
+  stat (f_c s) t <> Some SubscriptionError -> stat (f_c s) t <> Some Misbehaving ->
   set_union (r_pending r0) (pending_locators (c_db (f_c s)) t) <> [] ->
   at_adds a = accept_all sl ++ rest ->
   (length (set_union (r_pending r0) (pending_locators (c_db (f_c s)) t)) <= length sl)%nat ->
@@ -81,7 +83,7 @@ Proof. exact (delivers_on_recovery ops t r0 a sl rest). Qed.
 Print Assumptions C13_delivers_on_recovery.
 
 Theorem C13_manager_wakes s t r0 elapsed :
-  FInv s -> MgrKeys s -> starts_safe s -> poisoned s = false -> f_mgr_dead s = false -> f_chan s = [] ->
+  FInv s -> MgrKeys s -> poisoned s = false -> f_mgr_dead s = false -> f_chan s = [] ->
   aget (f_mgr s) t = Some r0 -> r_status r0 = RIdle -> memN t elapsed = true ->
   let s1 := fst (f_manager_tick s elapsed) in
   aget (f_mgr s1) t = Some {| r_status := RStopped; r_pending := set_union (r_pending r0) (pending_locators (c_db (f_c s)) t) |} /\
@@ -91,8 +93,8 @@ Proof. exact (manager_wakes s t r0 elapsed). Qed.
 Print Assumptions C13_manager_wakes.
 
 Theorem C13_manager_starts s t r0 elapsed :
-  FInv s -> MgrKeys s -> starts_safe s -> poisoned s = false -> f_mgr_dead s = false -> f_chan s = [] ->
-  aget (f_mgr s) t = Some r0 -> should_start r0 = true ->
+  FInv s -> MgrKeys s -> poisoned s = false -> f_mgr_dead s = false -> f_chan s = [] ->
+  aget (f_mgr s) t = Some r0 -> should_start r0 = true -> knownc (f_c s) t -> stat (f_c s) t <> Some Misbehaving ->
   let s1 := fst (f_manager_tick s elapsed) in
   aget (f_mgr s1) t = Some {| r_status := RRunning; r_pending := r_pending r0 |} /\
   aget (c_retriers (f_c s1)) t = Some RRunning /\ In t (f_tasks s1) /\
@@ -101,21 +103,42 @@ Theorem C13_manager_starts s t r0 elapsed :
 Proof. exact (manager_starts s t r0 elapsed). Qed.
 Print Assumptions C13_manager_starts.
 
-(* A tower that keeps failing: every attempt leaves the state untouched while the back-off goes on; when it is
-   exhausted the tower is shown unreachable, its retrier idle (so retrytower is accepted), the in-memory set cleared
-   and the database (every pending row) untouched; the wake-up after the auto-retry delay is C13_manager_wakes. *)
-Theorem C13_gives_up_truthfully ops t a :
-  ops_fresh f_init ops = true -> let s := frun f_init ops in poisoned s = false ->
-  In t (f_tasks s) -> knownc (f_c s) t -> retrier_pending s t <> [] -> fails a = true ->
+(* the manager never panics: starting a retrier of an abandoned or flagged tower marks it failed instead *)
+Theorem C13_start_never_panics s t r : snd (retrier_start s t r) = None.
+Proof. exact (retrier_start_no_abort s t r). Qed.
+Print Assumptions C13_start_never_panics.
+
+(* A tower that keeps failing while something is really pending for it: every attempt leaves the state untouched while
+   the back-off goes on (`dropped_only`: everything but the request log and the stale locators the retrier drops from its
+   set); when the back-off is exhausted the tower is shown unreachable, its retrier idle (so retrytower is accepted),
+   the in-memory set cleared and the database (every pending row) untouched; the wake-up after the auto-retry delay is
+   C13_manager_wakes. *)
+Theorem C13_gives_up_truthfully ops t a l0 :
+  let s := frun f_init ops in poisoned s = false ->
+  In t (f_tasks s) -> knownc (f_c s) t -> stat (f_c s) t <> Some Misbehaving ->
+  In l0 (retrier_pending s t) -> Prow (c_db (f_c s)) t l0 -> fails a = true ->
   let s' := fst (fstep s (FRetrierRun t [a])) in
-  (at_more a = true -> same_but_log s s' /\ exists e, snd (fstep s (FRetrierRun t [a])) = ORun (OutBackoff e)) /\
+  (at_more a = true -> dropped_only t s s' /\ exists e, snd (fstep s (FRetrierRun t [a])) = ORun (OutBackoff e)) /\
   (at_more a = false ->
      (exists e, snd (fstep s (FRetrierRun t [a])) = ORun (OutIdle e)) /\
      stat (f_c s') t = Some Unreachable /\ rstat s' t = Some RIdle /\ retrier_pending s' t = [] /\
      aget (c_retriers (f_c s')) t = Some RIdle /\ c_db (f_c s') = c_db (f_c s) /\ ~ In t (f_tasks s') /\
      retry_allowed s' t = true).
-Proof. exact (gives_up_truthfully ops t a). Qed.
+Proof. exact (gives_up_truthfully ops t a l0). Qed.
 Print Assumptions C13_gives_up_truthfully.
+
+(* STATUS IS TRUTHFUL also for registertower (fix b2b8ee7): a connection error changes the status of the tower only
+   from reachable to temporary unreachable, only when something is pending for it, and then together with a message
+   that makes the retry manager take the tower: no tower is left temporary unreachable without a retry loop *)
+Theorem C13_register_conn_error_hands_over s t :
+  let s' := fst (f_register s t t RConnErr) in
+  snd (f_register s t t RConnErr) = OErr E_connection \/ snd (f_register s t t RConnErr) = OPanic (SClient Site_poisoned) ->
+  (forall k, stat (f_c s') k = stat (f_c s) k) /\ f_chan s' = f_chan s \/
+  (exists su, aget (c_towers (f_c s)) t = Some su /\ su_status su = Reachable /\ su_pending su <> [] /\
+     stat (f_c s') t = Some TemporaryUnreachable /\ (forall k, k <> t -> stat (f_c s') k = stat (f_c s) k) /\
+     f_chan s' = f_chan s ++ [(t, DStale (su_pending su))]).
+Proof. exact (register_conn_error_hands_over s t). Qed.
+Print Assumptions C13_register_conn_error_hands_over.
 
 (* non-vacuity of C13_delivers_on_recovery: an outage, the retrier gives up, two more revocations while idle; the
    hypotheses hold and after the three steps nothing is pending *)
@@ -123,7 +146,7 @@ Example C13_recovery_example :
   let ops := [FRegister 0 (w_good 1); FRevocation 7 [] [(0, AConnErr)]; FManagerTick []; FManagerTick [];
               FRetrierRun 0 [w_att [] false]; FRevocation 8 [] []; FRevocation 9 [] []] in
   let s := frun f_init ops in
-  ops_fresh f_init ops = true /\ poisoned s = false /\ f_mgr_dead s = false /\ f_chan s = [] /\
+  poisoned s = false /\ f_mgr_dead s = false /\ f_chan s = [] /\
   rstat s 0 = Some RIdle /\ stat (f_c s) 0 = Some Unreachable /\ pending_locators (c_db (f_c s)) 0 = [7; 8; 9] /\
   pending_locators (c_db (f_c (frun s [FManagerTick [0]; FManagerTick []; FRetrierRun 0 [w_att [AAccept 110; AAccept 110; AAccept 110] true]]))) 0 = [].
 Proof. vm_compute. repeat split. Qed.
@@ -134,4 +157,14 @@ Example C13_delivery_example :
                         FRetrierRun 0 [w_att [] true; w_att [AAccept 110] true]] in
   pending_locators (c_db (f_c s)) 0 = [] /\ f_tasks s = [] /\
   match aget (c_towers (f_c s)) 0 with Some su => su_status su = Reachable | None => False end.
+Proof. vm_compute. repeat split. Qed.
+
+(* the former defects D3 / D5 as regression witnesses: registertower against a known tower that is down, with nothing
+   pending, leaves it reachable (it used to stay temporary unreachable for ever); a retrier started after its tower was
+   abandoned is marked failed and dropped by the next tick (it used to panic and kill the retry manager) *)
+Example C13_former_defects :
+  let s := frun f_init [FRegister 0 (w_good 1); FRegister 0 RConnErr] in
+  stat (f_c s) 0 = Some Reachable /\ f_chan s = [] /\
+  let s' := frun f_init [FRegister 0 (w_good 1); FRevocation 7 [] [(0, AConnErr)]; FManagerTick []; FAbandon 0; FManagerTick []; FManagerTick []] in
+  poisoned s' = false /\ f_mgr_dead s' = false /\ f_mgr s' = [] /\ f_tasks s' = [].
 Proof. vm_compute. repeat split. Qed.
